@@ -89,6 +89,7 @@ def check(rep):
     rule_number_order(ctx)
     LR.rule_string_minimal(ctx)
     LR.rule_string_delimiters(ctx)
+    LR.rule_string_alphabet(ctx)
     rule_grammar_literals(ctx)
     PR.rule_compiles(ctx, rid="C05.SHAPE-COMPILES", strict=False)
     from . import evalrules as ER
